@@ -11,13 +11,74 @@ from .shared import calls_in, connection_class, defs_of, deref, framing_sites, i
 UTF8 = {"utf-8", "utf8", "UTF-8", "UTF8", "utf_8"}
 
 
+def _is_frame(n):
+    if isinstance(n, ast.JoinedStr):
+        for a, b in zip(n.values, n.values[1:]):
+            if isinstance(a, ast.Constant) and isinstance(a.value, str) and a.value.rstrip(" ").endswith("Content-Length:") and isinstance(b, ast.FormattedValue):
+                return True
+    return False
+
+
+def _as_fstring(ctx, f, e, depth=0):
+    """The f-string that a %-template / concatenation of text pieces abbreviates
+    (values: Constant text and FormattedValue around the *original* expression
+    nodes), or None when e is not such a construction."""
+    def fv(x):
+        return ast.copy_location(ast.FormattedValue(value=x, conversion=-1, format_spec=None), x)
+
+    if isinstance(e, ast.Constant) and isinstance(e.value, str):
+        return [e]
+    if isinstance(e, ast.JoinedStr):
+        return list(e.values)
+    if isinstance(e, ast.BinOp) and isinstance(e.op, ast.Add):
+        a, b = _as_fstring(ctx, f, e.left, depth + 1), _as_fstring(ctx, f, e.right, depth + 1)
+        if a is None and b is None:
+            return None
+        return (a if a is not None else [fv(e.left)]) + (b if b is not None else [fv(e.right)])
+    if isinstance(e, ast.BinOp) and isinstance(e.op, ast.Mod) and isinstance(e.left, ast.Constant) and isinstance(e.left.value, str):
+        parts = re.split(r"(%%|%[ds])", e.left.value)
+        args = list(e.right.elts) if isinstance(e.right, ast.Tuple) else [e.right]
+        if any(p.startswith("%") and p not in ("%%", "%d", "%s") for p in re.findall(r"%.", e.left.value)):
+            return None
+        out = []
+        for p_ in parts:
+            if p_ in ("%d", "%s"):
+                if not args:
+                    return None
+                out.append(fv(args.pop(0)))
+            elif p_ == "%%":
+                out.append(ast.copy_location(ast.Constant(value="%"), e.left))
+            elif p_:
+                out.append(ast.copy_location(ast.Constant(value=p_), e.left))
+        return out if not args else None
+    if isinstance(e, ast.Name) and depth < 4:
+        v = single_def(ctx, f, e.id)
+        if v is not None and isinstance(v, (ast.BinOp, ast.JoinedStr)):
+            return _as_fstring(ctx, f, v, depth + 1)
+    return None
+
+
 def _frame_string(ctx, f):
     for n in ctx.m.walk_own(f.node):
-        if isinstance(n, ast.JoinedStr):
-            for a, b in zip(n.values, n.values[1:]):
-                if isinstance(a, ast.Constant) and isinstance(a.value, str) and a.value.rstrip(" ").endswith("Content-Length:") and isinstance(b, ast.FormattedValue):
-                    return n
-    return None
+        if _is_frame(n):
+            return n
+    # the same frame written as a %-template and/or a concatenation of pieces
+    best = None
+    for n in ctx.m.walk_own(f.node):
+        if isinstance(n, ast.BinOp) and isinstance(n.op, (ast.Add, ast.Mod)):
+            vals = _as_fstring(ctx, f, n)
+            if not vals:
+                continue
+            merged = []
+            for v in vals:
+                if merged and isinstance(v, ast.Constant) and isinstance(merged[-1], ast.Constant):
+                    merged[-1] = ast.copy_location(ast.Constant(value=merged[-1].value + v.value), merged[-1])
+                else:
+                    merged.append(v)
+            J = ast.copy_location(ast.JoinedStr(values=merged), n)
+            if _is_frame(J) and (best is None or len(merged) > len(best.values)):
+                best = J
+    return best
 
 
 def _encode_call(e):
